@@ -230,7 +230,8 @@ func TestC11Stream(t *testing.T) {
 				st := r.step(cand, cand.parkedAt("register"), nil)
 				k := rapid.IntRange(1, 3).Draw(t, "putsDuringHandover")
 				for i := 0; i < k && puts < 14; i++ {
-					if !r.put() {
+					// each put may push the ring's window past a round some scanning stream has not sent yet
+					if !canPut() || !r.put() {
 						break
 					}
 					puts++
